@@ -143,6 +143,26 @@ class RMat:
             raise Raised("AttributeError", "'numpy.ndarray' object has no attribute 'tocsr'")
         return RMat(self.p, "csr")
 
+    @property
+    def nnz(self):
+        """Number of stored entries of a csr matrix: a symbolic non-negative integer; on a path where it is
+        zero the matrix (if it is a single atom) is the zero matrix."""
+        if self.storage != "csr":
+            raise Raised("AttributeError", "'numpy.ndarray' object has no attribute 'nnz'")
+        from .sym import SInt, SBool
+        import z3 as _z3
+        words = list(self.p.t)
+        n = SInt.var(f"nnz[{self.p!r}]")
+        c = cur()
+        c.assume(n >= 0, base=True)
+        if len(words) == 1 and len(words[0]) == 1:
+            atom = words[0][0][0]
+            if bool(n == 0):
+                c.ghost.setdefault("zero_atoms", set()).add(atom)
+                return 0
+            return n
+        return n
+
     def power(self, k):
         if self.storage != "csr" or k != 2:
             raise OutOfReach("power() other than csr.power(2)")
